@@ -443,7 +443,7 @@ def run_ranges(rep, crate, cfg, scans, tab):
         rep.assumptions.append("C15-R3/E3: EncodingParameters = (W, P, J, P1) of one K <= 56403 (as built by try_pi_decode*)")
 
     # --- collect obligations of the cone -----------------------------------------------------------
-    extra = set()
+    extra = {name for name, _ in drivers}      # the driver functions' own ESI/ISI arithmetic and refusals
     merged = {}
     for name, anx in [("E1", an)] + drivers:
         for key, o in anx.obls.items():
